@@ -13,6 +13,8 @@ use oxidd_core::{
 
 mod set_var_order;
 pub use set_var_order::{set_var_order, set_var_order_seq};
+#[cfg(feature = "oxidd_verif")]
+pub use set_var_order::verif;
 
 /// Swap the level given by `upper_no` with the level directly below.
 ///
